@@ -204,3 +204,13 @@ def scramble_storage(c):
         c.rename_gate(l, l + '_tmpz')
         c.rename_gate(l + '_tmpz', l)
     return c
+
+
+def identity_variants(c):
+    """The same circuit as other Python objects: copy.deepcopy and a pickle round trip create GateType
+    objects that are equal to, but not identical with, the module constants."""
+    import copy
+    import pickle
+
+    yield 'deepcopy', copy.deepcopy(c)
+    yield 'pickle', pickle.loads(pickle.dumps(c))
